@@ -1395,7 +1395,13 @@ class TreeSim(WorldBase):
             p.info["descended"] = True
             self.probe("nested_populate")
         try:
-            lazy = zf << af
+            sp = a.get("sp")
+            if sp is not None and exp and isinstance(exp[0], int) and 1 <= sp <= len(zf.coords) \
+                    and all(isinstance(c, int) for c in zf.coords) and zf.coords[sp - 1] < exp[0]:
+                lazy = zf.__lshift__(af, start_pos=sp)        # only a shortcut for the search in z
+                self.probe("populate_with_start_pos")
+            else:
+                lazy = zf << af
             t.gen = iter(lazy)
         except Exception as e:
             t.done = True
@@ -2378,7 +2384,16 @@ class TreeSim(WorldBase):
                 continue
             tid = self.next_tid
             self.next_tid += 1
-            return ["start", tid, "populate", {"z": zs, "a": as_, "zpre": enc_point(zpre), "apre": enc_point(apre)}]
+            a = {"z": zs, "a": as_, "zpre": enc_point(zpre), "apre": enc_point(apre)}
+            if self.prop == "C05" and g.random() < 0.3:
+                # the optional search shortcut: everything of z before this position is smaller than a's first coordinate
+                zf, af = ob.find_fiber(zsl.root, zpre), ob.find_fiber(asl.root, apre)
+                if zf is not None and af is not None and af.coords and all(isinstance(c, int) for c in list(zf.coords) + list(af.coords)):
+                    import bisect as _bs
+                    hi = _bs.bisect_left(list(zf.coords), af.coords[0])
+                    if hi >= 1:
+                        a["sp"] = g.randint(1, hi)
+            return ["start", tid, "populate", a]
         return None
 
     def gen_ishaperef(self, g):
